@@ -64,6 +64,9 @@ def do_replay(prop, path):
     elif rp.get("kind") == "connect_two_models":
         from vf.e1.eblif_jobs import replay_connect_two_models
         viol, txt = replay_connect_two_models(rp)
+    elif rp.get("kind") == "eblif_compose":
+        from vf.e1.compose_jobs import replay_eblif_compose
+        viol, txt = replay_eblif_compose(rp)
     elif rp.get("kind") == "uniquify":
         from vf.e1.flatten_jobs import replay_uniquify
         viol, txt = replay_uniquify(rp)
